@@ -10,6 +10,11 @@ sys.setrecursionlimit(10000)
 sys.unraisablehook = lambda *a, **k: None
 
 
+import faulthandler, signal as _signal
+if os.environ.get("VERIF_DEBUG_DUMP"):
+    faulthandler.register(_signal.SIGUSR1, all_threads=False)          # kill -USR1 <pid> prints where a (forked) worker is
+
+
 def main(argv=None):
     ap = argparse.ArgumentParser(prog="check")
     ap.add_argument("what")
